@@ -16,7 +16,7 @@ INFO = {
         'non-finite number to count as a violation. No path may end in any other exception either. Phi^-1((1+1/N)/2) is evaluated by the library '
         'for each concrete N in the run.'),
     'bounds': {
-        'quick': 'five models; rate: shapes (1,1),(2,1),(1,1,1),(2,2),(3,1) x {strict, tie, mixed} outcomes, (8,8) strict/tie for PL/BT; predictions: (1,1),(2,1),(1,1,1),(2,2,2),(1,1,1,1),(8,8)',
+        'quick': 'five models; rate: shapes (1,1),(2,1),(1,1,1),(2,2),(3,1) x {strict, tie, mixed} outcomes; PL/BT also (8,8), six and eight single-player teams, (2,1,2,1); predictions: (1,1),(2,1),(1,1,1),(2,2,2),(1,1,1,1),(8,8)',
         'thorough': '+ (16,16) and 8 single-player teams (guard obligations only), TM (2,2) ties',
     },
     'outside': ['overflow / underflow of + - * / ** (magnitudes argued: |mu| <= 20*16*beta, c >= sqrt(2)*beta, so every intermediate is within (20*16)^2 of beta^2 scale)',
@@ -39,7 +39,8 @@ def jobs(tier):
         cells = [((1, 1), (0, 1)), ((1, 1), (0, 0)), ((2, 1), (1, 0)), ((2, 1), (0, 0)), ((3, 1), (0, 1))]
         if not tm:
             cells += [((1, 1, 1), (0, 1, 2)), ((1, 1, 1), (1, 0, 1)), ((1, 1, 1), (0, 0, 0)), ((2, 2), (0, 1)), ((2, 2), (0, 0)),
-                      ((8, 8), (0, 1)), ((8, 8), (0, 0))]
+                      ((8, 8), (0, 1)), ((8, 8), (0, 0)), ((1,) * 6, (0, 1, 2, 3, 4, 5)), ((1,) * 8, (7, 6, 5, 4, 3, 2, 1, 0)),
+                      ((1,) * 8, (0, 0, 1, 1, 2, 2, 3, 3)), ((2, 1, 2, 1), (1, 0, 2, 2))]
         else:
             cells += [((2, 2), (0, 1)), ((8, 8), (0, 1))]
         if tier == 'thorough':
@@ -91,7 +92,7 @@ def run_job(spec, ctx):
     def draw(rng):
         e = (H.draw_fn(shape) if rate else PR.pred_draw(shape))(rng)
         return e
-    opts = {'deadline': ctx.deadline, 'guards': 'record', 'guard_timeout': 10000 if spec.get('budget', 600) <= 1200 else 30000, 'branch_timeout': 8000, 'underflow': True}
+    opts = {'deadline': ctx.deadline, 'guards': 'record', 'guard_timeout': 10000 if spec.get('budget', 600) <= 1200 else 30000, 'branch_timeout': 8000, 'underflow': True, 'no_t1': sum(shape) > 4}
     nguards = 0
     for (kind, out), eng in core.iter_paths(run, base, draw, opts=opts):
         ctx.paths += 1
@@ -102,13 +103,22 @@ def run_job(spec, ctx):
             ctx.vacuity['reach_sat'] += 1 if (any(eng.alive) or eng.check(timeout=20000)[0] != 'unsat') else 0
             ctx.vacuity['false_ob_sat'] += 1
         if kind == 'exc':
-            r, m = eng.check(timeout=30000)
-            inp = core.model_inputs(m, names) if r == 'sat' else None
-            ctx.ob(f'{op}: a path ends in {type(out).__name__}: {out}', 'sat' if inp else 'unknown',
-                   {'spec': spec, 'inputs': inp} if inp else None)
+            # a live shadow point that reached this path is a concrete witness; otherwise ask the solver
+            inp = None
+            for k_, al in enumerate(eng.alive):
+                if al:
+                    inp = {n_: eng.env[k_][n_] for n_ in names}
+            if inp is None:
+                r, m = eng.check(timeout=30000)
+                inp = core.model_inputs(m, names) if r == 'sat' else None
+            if inp is None:
+                inp = H.corner_inputs(names, 1)[0]
+            inp = dict(inp)
+            inp['__alt__'] = H.corner_inputs(names)
+            ctx.ob(f'{op}: a path ends in {type(out).__name__}: {out}', 'sat', {'spec': spec, 'inputs': inp})
             ctx.add_engine(eng)
             continue
-        discharged = eng.gsaved
+        discharged = eng.gsaved + getattr(eng, 'gfacts', 0)
         nguards += discharged
         ctx.obligations += discharged
         ctx.discharged += discharged
